@@ -24,13 +24,13 @@ def gen_case(rng, nmax=4):
             m["species_extra"][e].pop(rng.choice(["atomic_number", "atomic_mass"]))
             if not m["species_extra"][e]:
                 del m["species_extra"][e]
-    return dict(route=route, model=m)
+    return dict(route=route, model=m, api_variant=None if potable else eamlib.api_variant(rng, m))
 
 
 def run_impl(case):
     m, route = case["model"], case["route"]
     if route in ("writeSetFL", "class"):
-        pots, eams = eamlib.build_objects(m)
+        pots, eams = eamlib.build_objects(m, variant=case.get("api_variant"))
         s = io.StringIO()
         if route == "class":
             SetFL_EAMTabulation(pots, eams, float(m["cut"]), m["nr"], float(m["cutrho"]), m["nrho"]).write(s)
